@@ -10,14 +10,45 @@ import (
 
 func tokenString(s string) string {
 	s = strings.Trim(s, " \t\n\r")
+	if len(s) < 2 {
+		return s
+	}
 	lastChar := len(s) -1
 	if s[0] == char_doublequote && s[lastChar] == char_doublequote {
-		return s[1:lastChar]
+		return unescapeDoubleQuoted(s[1:lastChar])
 	}
 	if s[0] == char_singlequote && s[lastChar] == char_singlequote {
 		return s[1:lastChar]
 	}
 	return s
+}
+
+// RFC 7950 Sec 6.1.3 - backslash sequences allowed inside double quoted strings
+func unescapeDoubleQuoted(s string) string {
+	if !strings.ContainsRune(s, char_backslash) {
+		return s
+	}
+	var b strings.Builder
+	for i := 0; i < len(s); i++ {
+		if s[i] == char_backslash && i+1 < len(s) {
+			switch s[i+1] {
+			case 'n':
+				b.WriteByte('\n')
+				i++
+				continue
+			case 't':
+				b.WriteByte('\t')
+				i++
+				continue
+			case char_doublequote, char_backslash:
+				b.WriteByte(s[i+1])
+				i++
+				continue
+			}
+		}
+		b.WriteByte(s[i])
+	}
+	return b.String()
 }
 
 // Lex implements goyacc interface
